@@ -188,19 +188,17 @@ def strip_strings(in_line: str, maintain_len: bool = False) -> str:
     str
         Stripped string
     """
-
-    def repl_sq(m):
-        return "'{}'".format(" " * (len(m.group()) - 2))
-
-    def repl_dq(m):
-        return '"{}"'.format(" " * (len(m.group()) - 2))
-
-    if maintain_len:
-        out_line = FRegex.SQ_STRING.sub(repl_sq, in_line)
-        out_line = FRegex.DQ_STRING.sub(repl_dq, out_line)
-    else:
-        out_line = FRegex.SQ_STRING.sub("", in_line)
-        out_line = FRegex.DQ_STRING.sub("", out_line)
+    # Each literal is delimited by the kind of quote that opens it: an apostrophe
+    # inside "it's" does not pair with one further down the line
+    out_line = ""
+    pos = 0
+    for span in literal_spans(in_line):
+        out_line += in_line[pos : span.start]
+        if maintain_len:
+            quote = in_line[span.start]
+            out_line += quote + " " * (span.end - span.start - 2) + quote
+        pos = span.end
+    out_line += in_line[pos:]
     return out_line
 
 
